@@ -211,6 +211,39 @@ def ml_string_families(ctx, text, cfg):
     return {"ml_tokens": len(ml), "in_family_with_children": with_children}
 
 
+def real_token_spans_lines(ctx, text):
+    """does the REAL lexer produce a token (other than Eof) whose content holds a line break?"""
+    c = Case("spans", gen.DEFAULT_CFG, [], text)
+    try:
+        results, files, wd = runner.run_cases([c], mode="trace")
+    except Exception:
+        return False
+    ctx.workdirs.append(wd)
+    data = c.input_bytes()
+    pos, in_raw = 0, False
+    for tf in files:
+        try:
+            fh = open(tf, errors="replace")
+        except OSError:
+            continue
+        with fh:
+            for ln in fh:
+                p = ln.split()
+                if not p:
+                    continue
+                if p[0] == "RAW":
+                    in_raw, pos = True, 0
+                elif p[0] == "r" and in_raw:
+                    w, n = int(p[1]), int(p[2])
+                    content = data[pos + w: pos + w + n]
+                    pos += w + n
+                    if b"\n" in content or b"\r" in content:
+                        return True
+                elif in_raw:
+                    in_raw = False
+    return False
+
+
 def witness_cases(ctx, prop, **meta):
     """the concrete witnesses of this property's known findings, replayed through the same oracle"""
     from . import findings
@@ -631,10 +664,18 @@ def run_c09(ctx):
             if b"\r" in ra.out:
                 ctx.fail("cr_in_lf_output", ra.case, "line_ending=lf output contains CR", observed=ra.out.hex()[:2000])
             if ra.out.replace(b"\n", b"\r\n") != rb.out:
+                if ra.out.replace(b"\r", b"") == rb.out.replace(b"\r", b"") and real_token_spans_lines(ctx, rb.case.text):
+                    ctx.count("lf_vs_crlf_config_line_spanning_token_modulo_cr")
+                    return
                 ctx.fail("crlf_not_subst", rb.case, "crlf result is not the lf result with each terminator substituted", observed=rb.out.hex()[:2000], expected=ra.out.replace(b"\n", b"\r\n").hex()[:2000])
         else:
             ctx.count("lf_vs_crlf_input")
             if ra.out != rb.out:
+                if ra.out.replace(b"\r", b"") == rb.out.replace(b"\r", b"") and real_token_spans_lines(ctx, rb.case.text):
+                    # the proviso of clause 3, decided by the real lexer: a token that holds a line break (an
+                    # unterminated directive or comment of an ill-formed input, ...) is kept verbatim with its CRs
+                    ctx.count("lf_vs_crlf_input_excluded_line_spanning_token")
+                    return
                 ctx.fail("input_endings_matter", rb.case, "CRLF input formats differently from the same input with LF", observed=rb.out.hex()[:2000], expected=ra.out.hex()[:2000])
 
     run_pairs(ctx, pairs, compare)
